@@ -357,6 +357,118 @@ func (c *Ctx) checkBranchClamp() {
 // ---------------------------------------------------------------------------
 // Brent: points and their function values move together
 
+// checkBrentPairsRegisters: the same pairing when x, w, v, fx, fw, fv are SSA registers. At the
+// head of the iteration loop each of them is a φ; on every edge from inside the loop, the value
+// that becomes point n and the value that becomes f(n) must be aligned: both the old values of the
+// same point p and of f(p); or a freshly computed point and a value computed from a call on that
+// point; or two φ-nodes of the same inner merge whose edges are aligned pairwise.
+func (c *Ctx) checkBrentPairsRegisters(r *fnRef) {
+	L := c.L
+	fn := r.F
+	var head *ssa.BasicBlock
+	hp := map[string]*ssa.Phi{}
+	for _, lp := range naturalLoops(fn) {
+		m := map[string]*ssa.Phi{}
+		for _, in := range lp.Head.Instrs {
+			if p, ok := in.(*ssa.Phi); ok {
+				m[p.Comment] = p
+			}
+		}
+		if m["x"] != nil && m["fx"] != nil && m["w"] != nil && m["fw"] != nil && m["v"] != nil && m["fv"] != nil {
+			head, hp = lp.Head, m
+		}
+	}
+	if head == nil {
+		L.Unknown("paired-update", r.label, "variables", c.P.Pos(fn.Pos()), "neither address-taken locals nor loop-carried registers x/fx, w/fw, v/fv found")
+		return
+	}
+	pointOf := map[ssa.Value]string{}
+	valueOf := map[ssa.Value]string{}
+	for _, n := range []string{"x", "w", "v"} {
+		pointOf[hp[n]] = n
+		valueOf[hp["f"+n]] = n
+	}
+	var aligned func(a, b ssa.Value, depth int) (bool, string)
+	aligned = func(a, b ssa.Value, depth int) (bool, string) {
+		if depth > 12 {
+			return false, "merge chain too deep"
+		}
+		if p, ok := pointOf[a]; ok {
+			if q, ok := valueOf[b]; ok && q == p {
+				return true, ""
+			}
+			return false, fmt.Sprintf("the point takes old(%s) but its value does not take old(f%s)", p, p)
+		}
+		if _, ok := valueOf[b]; ok {
+			return false, "the value is copied from another point's value while the point is not copied from that point"
+		}
+		// fresh point (possibly itself a merge of several candidate steps): its value is computed
+		// from a call on it
+		if mentionsThroughCalls(b, a, 0) {
+			return true, ""
+		}
+		pa, okA := a.(*ssa.Phi)
+		pb, okB := b.(*ssa.Phi)
+		if okA || okB {
+			if !okA || !okB || pa.Block() != pb.Block() || len(pa.Edges) != len(pb.Edges) {
+				return false, "point and value are merged at different places"
+			}
+			for k := range pa.Edges {
+				if ok, why := aligned(pa.Edges[k], pb.Edges[k], depth+1); !ok {
+					return false, why
+				}
+			}
+			return true, ""
+		}
+		// fresh point: its value is computed from a call on it
+		if mentionsThroughCalls(b, a, 0) {
+			return true, ""
+		}
+		return false, "a freshly computed point is paired with a value that is not computed from it"
+	}
+	n := 0
+	for k, pr := range head.Preds {
+		if !head.Dominates(pr) {
+			continue // entry edge: initialisation
+		}
+		for _, pt := range []string{"x", "w", "v"} {
+			n++
+			ok, why := aligned(hp[pt].Edges[k], hp["f"+pt].Edges[k], 0)
+			L.Check(ok, "paired-update", r.label, fmt.Sprintf("%s and f%s carried around the loop", pt, pt), c.P.Pos(hp[pt].Pos()),
+				"on every path of an iteration the new point and its new value are the old pair of one point, or a fresh point with the value computed from it",
+				"a bracketing point and its function value are no longer updated together: "+why+" — the parabolic step then interpolates through a point that was never evaluated")
+		}
+	}
+	L.Floor("paired-update", 3, "three point/value pairs carried around the loop")
+}
+
+// mentionsThroughCalls: v is computed from target through arithmetic, conversions and call arguments.
+func mentionsThroughCalls(v, target ssa.Value, depth int) bool {
+	if v == target {
+		return true
+	}
+	if depth > 6 {
+		return false
+	}
+	switch x := v.(type) {
+	case *ssa.UnOp:
+		return mentionsThroughCalls(x.X, target, depth+1)
+	case *ssa.BinOp:
+		return mentionsThroughCalls(x.X, target, depth+1) || mentionsThroughCalls(x.Y, target, depth+1)
+	case *ssa.Convert:
+		return mentionsThroughCalls(x.X, target, depth+1)
+	case *ssa.Call:
+		for _, a := range x.Common().Args {
+			if mentionsThroughCalls(a, target, depth+1) {
+				return true
+			}
+		}
+	case *ssa.Extract:
+		return mentionsThroughCalls(x.Tuple, target, depth+1)
+	}
+	return false
+}
+
 func (c *Ctx) checkBrentPairs() {
 	L := c.L
 	L.Rule("paired-update", "in dist_F_Brent the abscissae x, w, v, u and their function values fx, fw, fv, fu are updated together: at the end of every block, if a point variable holds the old value of point p then its value variable holds the old value of fp (symbolic execution of the block over the address-taken locals, shift(a,b,c,d) meaning a=b; b=c; c=d)")
@@ -374,7 +486,8 @@ func (c *Ctx) checkBrentPairs() {
 	names := []string{"x", "w", "v", "u"}
 	for _, n := range names {
 		if cells[n] == nil || cells["f"+n] == nil {
-			L.Unknown("paired-update", r.label, "variables", c.P.Pos(fn.Pos()), "address-taken locals "+n+"/f"+n+" not found (the rule is written for the pointer-based shift helper)")
+			// the variables are registers (no pointer-based helper): same property on the φ-nodes
+			c.checkBrentPairsRegisters(r)
 			return
 		}
 	}
